@@ -60,6 +60,21 @@ static sqf::runtime::runtime::result execute_do(sqf::runtime::runtime& runtime, 
         runtime_error = false;
         return true;
     };
+    // Checks the time limit of the run; reports and requests the exit if it was exceeded.
+    auto deadline_reached = [&](sqf::runtime::diagnostics::diag_info dinf) -> bool
+    {
+        if (runtime.configuration().max_runtime != std::chrono::milliseconds::zero() &&
+            runtime.configuration().max_runtime + runtime.run_timestamp() < std::chrono::system_clock::now())
+        {
+            runtime.__logmsg(logmessage::runtime::MaximumRuntimeReached(dinf, runtime.configuration().max_runtime));
+            // the diagnostic is the report; the raised flag must not be blamed on a later run,
+            // and a run that was cut short did not succeed
+            runtime_error = false;
+            runtime.exit(0);
+            return true;
+        }
+        return false;
+    };
     while (true)
     {
         if (runtime.is_exit_requested())
@@ -128,6 +143,20 @@ static sqf::runtime::runtime::result execute_do(sqf::runtime::runtime& runtime, 
             continue;
         }
 
+        if (result == sqf::runtime::frame::result::yield)
+        { // a behavior restarted a frame that has nothing to execute (e.g. a loop with an empty
+          // body): it counts like an instruction, so that slices end and the time limit holds
+            if (deadline_reached(frame.diag_info_from_position()))
+            {
+                return sqf::runtime::runtime::result::runtime_error;
+            }
+            if (exit_after > 0)
+            {
+                exit_after--;
+            }
+            continue;
+        }
+
         if (result == sqf::runtime::frame::result::done && context_active.frames_size() == frame_count)
         { // frame is done executing. Pop it from context and rerun.
 
@@ -152,20 +181,8 @@ static sqf::runtime::runtime::result execute_do(sqf::runtime::runtime& runtime, 
         }
 
         auto instruction = frame.current();
-        if (runtime.configuration().max_runtime != std::chrono::milliseconds::zero() &&
-            runtime.configuration().max_runtime + runtime.run_timestamp() < std::chrono::system_clock::now())
+        if (deadline_reached((*instruction)->diag_info()))
         {
-#ifdef DF__SQF_RUNTIME__ASSEMBLY_DEBUG_ON_EXECUTE
-            std::cout << "\x1B[33m[ASSEMBLY ASSERT]\033[0m" <<
-                "        " <<
-                "        " <<
-                "    " << "\x1B[36mEXIT execute_do\033[0m as max runtime (\x1B[90m" << runtime.configuration().max_runtime.count() << "ms\033[0m) was reached" << std::endl;
-#endif // DF__SQF_RUNTIME__ASSEMBLY_DEBUG_ON_EXECUTE
-            runtime.__logmsg(logmessage::runtime::MaximumRuntimeReached((*instruction)->diag_info(), runtime.configuration().max_runtime));
-            // the diagnostic is the report; the raised flag must not be blamed on a later run,
-            // and a run that was cut short did not succeed
-            runtime_error = false;
-            runtime.exit(0);
             return sqf::runtime::runtime::result::runtime_error;
         }
 
